@@ -353,6 +353,7 @@ fn pending_count(s: &mut Session) -> Option<u64> {
 fn execute_cluster(prog: Program) -> Outcome {
     let mut out = Outcome { setup: Err("form".into()), violations: vec![], recs: vec![], finals: BTreeMap::new(), overlapped: true };
     let w = World::new(prog.nodes);
+    maybe_segment(3, true);
     let p = match w.form_cluster(1_300, 15_000) {
         Some(p) => p,
         None => {
